@@ -208,3 +208,15 @@ func sends[T any](ch chan T) int { return 0 }
 
 //@ func Association.resetOutgoingStreamSequenceNumbers
 //@   at call Stream.resetOutgoingStreamSequenceNumbers assert#only-streams-of-the-acknowledged-request{C14} reconfig != nil && ok
+
+// ---- C06: partial-reliability decision ----
+
+//@ writers{C06} chunkPayloadData.firstSent : Association.movePendingDataChunkToInflightQueue
+
+//@ func Association.checkPartialReliabilityStatus
+//@   at call time.Since assert#lifetime-measured-from-the-first-transmission{C06} arg0 == chunkPayload.firstSent
+//@   at call chunkPayloadData.setAbandoned@1 assert#retransmission-limit-reached{C06} chunkPayload.payloadType != PayloadTypeWebRTCDCEP && arg1 &&
+//@      stream.reliabilityType == ReliabilityTypeRexmit && chunkPayload.nSent >= stream.reliabilityValue
+//@   at call chunkPayloadData.setAbandoned@2 assert#lifetime-expired{C06} chunkPayload.payloadType != PayloadTypeWebRTCDCEP && arg1 &&
+//@      stream.reliabilityType == ReliabilityTypeTimed && elapsed >= int64(stream.reliabilityValue)
+//@   ensures#dcep-never-abandoned{C06} chunkPayload.payloadType == PayloadTypeWebRTCDCEP ==> chunkPayload.abandoned() == old(chunkPayload.abandoned())
